@@ -442,6 +442,7 @@ def _layout_of(tl):
             # the layer each hop of the path was laid out in (set by the engine for
             # every item of every layer): hop k must be the datum's stub of layer k
             "hop_layers": [h.layerIndex for h in hops],
+            "hop_stubs": [bool(h.isStub()) for h in hops],
         })
     sc = tl.options["scale"]
     fmt = sc.tickFormat()
@@ -530,6 +531,219 @@ def model_calls(py, lay):
     return [[500] + s, [501] + s, [502] + s]
 
 
+# ---- the end-to-end family: timeline input -> engine -> scene labels (command 800) ----
+FORCE_DEFAULTS = {"nodeSpacing": 3, "minPos": 0, "maxPos": None, "algorithm": "overlap", "density": 0.85, "stubWidth": 1}
+ALGS = ["overlap", "simple", "none"]
+
+
+def labella_opts(py):
+    """the engine options the timeline hands to Force(): options["labella"]"""
+    lab = {} if py.get("noopts") else dict((py.get("opts") or {}).get("labella") or {})
+    return {k: v for k, v in lab.items() if k in FORCE_DEFAULTS or k == "lineSpacing"}
+
+
+def _enc_force_update(o):
+    """alg? minPos?? maxPos?? density? nodeSpacing? stubWidth? lineSpacing?  (command 380's encoding)"""
+    out = []
+    out += [1, ALGS.index(o["algorithm"])] if "algorithm" in o else [0]
+    for k in ("minPos", "maxPos"):
+        if k in o:
+            out += [1] + ([0] if o[k] is None else [1] + q(o[k]))
+        else:
+            out += [0]
+    for k in ("density", "nodeSpacing", "stubWidth", "lineSpacing"):
+        out += [1] + q(o[k]) if k in o else [0]
+    return out
+
+
+def engine_call(py, ideals, lab):
+    o = effective(py)
+    pd = o["labelPadding"]
+    a = [800, DIRS.index(o["direction"])]
+    a += q(pd["left"]) + q(pd["right"]) + q(pd["top"]) + q(pd["bottom"]) + q(o["layerGap"])
+    a += _enc_force_update(lab)
+    a += [len(py["data"])]
+    for k, d in enumerate(py["data"]):
+        a += q(ideals[k]) + q(d["width"])
+        t = d.get("text")
+        a += [0] if t is None else [1] + enc_text(t)
+    return a
+
+
+def engine_calls(py, lay):
+    """the model is handed, per datum, the axis position the implementation
+    computed for it (scale(time): the scales are tied by C11/C12/C15), the
+    datum's width and text, and the options; nothing of the layout.
+    Second call (only when density*layerWidth is inexact in doubles): the same
+    with the density that makes the model's exact product equal the code's double."""
+    ideals = {n["key"]: n["ideal"] for n in lay["nodes"]}
+    if sorted(ideals) != list(range(len(py["data"]))):
+        return []
+    lab = labella_opts(py)
+    calls = [engine_call(py, ideals, lab)]
+    eff = dict(FORCE_DEFAULTS)
+    eff.update(lab)
+    mn, mx, d = eff["minPos"], eff["maxPos"], eff["density"]
+    if mn is not None and mx is not None and (mx - mn):
+        lw = mx - mn
+        prod = d * lw
+        if Fraction(prod) != Fraction(d) * Fraction(lw):
+            lab2 = dict(lab)
+            lab2["density"] = Fraction(prod) / Fraction(lw)
+            calls.append(engine_call(py, ideals, lab2))
+    return calls
+
+
+def dec_engine(ints):
+    d = _Dec(ints)
+    status = d.z()
+    H = d.q()
+    nodes = []
+    for _ in range(d.z()):
+        nd = {"id": d.z(), "layer": d.z(), "cur": d.z(), "w": d.q(), "h": d.q()}
+        nd["chain"] = [d.z() for _ in range(d.z())]
+        nd["box"] = (d.z(), d.z())
+        nd["origin"] = (d.q(), d.q())
+        nodes.append(nd)
+    layers = []
+    for _ in range(d.z()):
+        layers.append([(d.z(), d.z() != 0, d.q()) for _ in range(d.z())])
+    exact = []
+    for _ in range(d.z()):
+        exact.append([d.q() for _ in range(d.z())])
+    return {"status": status, "H": H, "nodes": nodes, "layers": layers, "exact": exact}
+
+
+ROUND_BAND = Fraction(1, 10 ** 7)   # ambiguity band around a .5 rounding boundary (layer_common / c06)
+
+
+def _small_dyadic(x):
+    if x is None:
+        return True
+    fr = Fraction(x)
+    dd = fr.denominator
+    return dd <= 4096 and dd & (dd - 1) == 0 and abs(fr) < 2 ** 21
+
+
+def _cmp_engine(py, lay, io, m):
+    """None (equal), ("amb", why) or ("diff", why)"""
+    import math
+    if m["status"] != 1:
+        return ("diff", "model says the labels/options are outside the documented domain")
+    o = effective(py)
+    d = o["direction"]
+    side = d in ("left", "right")
+    nodes = lay["nodes"]
+    if [n["key"] for n in nodes] != [x["id"] for x in m["nodes"]]:
+        return ("diff", "order of tl.nodes %r, model %r" % ([n["key"] for n in nodes][:8], [x["id"] for x in m["nodes"]][:8]))
+    exact_sizes = float_exact(py)
+    for k, (n, x) in enumerate(zip(nodes, m["nodes"])):
+        for fld in ("w", "h"):
+            ok = (Fraction(n[fld]) == x[fld]) if exact_sizes else close(x[fld], n[fld], 0)
+            if not ok:
+                return ("diff", "node[%d].%s: implementation %r, model %s" % (k, fld, n[fld], float(x[fld])))
+    hh = max((n["w"] if side else n["h"]) for n in nodes)
+    if not ((Fraction(hh) == m["H"]) if exact_sizes else close(m["H"], hh, 0)):
+        return ("diff", "nodeHeight: implementation %r, model %s" % (hh, float(m["H"])))
+    # the reported layers as the implementation's node objects show them:
+    # per layer {(datum, is_stub): position}, from every hop of every path
+    impl_layers = {}
+    for n in nodes:
+        if len(n["hop_layers"]) != len(n["chain"]) or n["hop_layers"] != list(range(len(n["chain"]))):
+            return ("diff", "datum %d: the hops of its path are in layers %r" % (n["key"], n["hop_layers"]))
+        if n["hop_stubs"] != [True] * (len(n["chain"]) - 1) + [False]:
+            return ("diff", "datum %d: stub flags along its path %r" % (n["key"], n["hop_stubs"]))
+        for j, c in enumerate(n["chain"]):
+            impl_layers.setdefault(j, {})[(n["key"], n["hop_stubs"][j])] = c
+    nl = (max(impl_layers) + 1) if impl_layers else 0
+    mod_layers = [dict(((g, sflag), (c, t)) for t, (g, sflag, c) in enumerate(layer)) for layer in m["layers"]]
+    # trailing empty layers (algorithm simple can produce them) carry no items
+    while mod_layers and not mod_layers[-1]:
+        mod_layers.pop()
+    if nl != len(mod_layers):
+        return ("diff", "%d layers in use, model %d" % (nl, len(mod_layers)))
+    lab = dict(FORCE_DEFAULTS)
+    lab.update(labella_opts(py))
+    for j in range(nl):
+        li, lm = impl_layers.get(j, {}), mod_layers[j]
+        if set(li) != set(lm):
+            only_i = sorted(set(li) - set(lm))[:4]
+            only_m = sorted(set(lm) - set(li))[:4]
+            return ("diff", "layer %d holds different items: only implementation %r, only model %r" % (j, only_i, only_m))
+        diffs = [key for key in li if not (isinstance(li[key], int) and not isinstance(li[key], bool) and Fraction(li[key]) == lm[key][0])]
+        if not diffs:
+            continue
+        # every difference of the first differing layer inside the rounding band?
+        nums = [lab.get("nodeSpacing"), lab.get("minPos"), lab.get("maxPos"), lab.get("stubWidth")]
+        nums += list(o["labelPadding"].values())
+        nums += [dd["width"] for dd in py["data"]] + [n["ideal"] for n in nodes]
+        fexact = all(_small_dyadic(v) for v in nums)
+        for key in diffs:
+            a, (b, t) = li[key], lm[key]
+            xs = m["exact"][j] if j < len(m["exact"]) else []
+            x = xs[t] if t < len(xs) else None
+            if x is None or not isinstance(a, int) or abs(Fraction(a) - b) != 1:
+                return ("diff", "layer %d, datum %d%s: implementation %r, model %s" % (j, key[0], " (stub)" if key[1] else "", a, b))
+            dist = abs((x - math.floor(x)) - Fraction(1, 2))
+            if not (dist <= ROUND_BAND and (dist > 0 or not fexact)):
+                return ("diff", "layer %d, datum %d%s: implementation %r, model %s (exact %s)" % (
+                    j, key[0], " (stub)" if key[1] else "", a, b, float(x)))
+        return ("amb", "rounding boundary in layer %d" % j)
+    # all layers agree item by item: the per-label quantities must agree exactly
+    EXACT[0] = exact_sizes
+    boxes = svg_boxes(io["svg"]) if "svg" in io else None
+    if boxes is None or len(boxes) != len(nodes):
+        return ("diff", "the SVG export draws %s boxes for %d labels" % (None if boxes is None else len(boxes), len(nodes)))
+    for k, (n, x) in enumerate(zip(nodes, m["nodes"])):
+        if n["layer"] != x["layer"]:
+            return ("diff", "node[%d] (datum %d): layerIndex %r, model %d" % (k, n["key"], n["layer"], x["layer"]))
+        if list(n["chain"]) != x["chain"]:
+            return ("diff", "node[%d] (datum %d): positions along its path %r, model %r" % (k, n["key"], n["chain"], x["chain"]))
+        if n["chain"][-1] != x["cur"]:
+            return ("diff", "node[%d] (datum %d): currentPos %r, model %d" % (k, n["key"], n["chain"][-1], x["cur"]))
+        # the drawn box: origin printed with %i, size in full
+        tr = io["svg"]["labels"][k]["tr"]
+        for axis in (0, 1):
+            r = cmp_num(("Fi", x["box"][axis], x["origin"][axis]), tr[axis], "label[%d] box origin.%s" % (k, "xy"[axis]))
+            if r:
+                return ("diff", r)
+        bw, bh = Fraction(io["svg"]["labels"][k]["w"]), Fraction(io["svg"]["labels"][k]["h"])
+        if not (close(x["w"], bw, 0) and close(x["h"], bh, 0)):
+            return ("diff", "label[%d] box size: drawn %s x %s, model %s x %s" % (k, float(bw), float(bh), float(x["w"]), float(x["h"])))
+    return None
+
+
+def compare_engine(case, io, mo):
+    """The end-to-end tie: everything the model derives from the timeline input
+    alone (layers, integer positions, stub chains, sizes, nodeHeight, drawn boxes)
+    against tl.nodes and the parsed SVG export."""
+    from harness import core
+    if not mo or mo[0] is None:
+        return "model produced no output (the pre-pass could not observe the axis positions)"
+    try:
+        m = dec_engine(mo[0])
+    except (ValueError, IndexError) as e:
+        return "model output undecodable: %s" % e
+    try:
+        r = _cmp_engine(case["py"], io["layout"], io, m)
+    except Amb:
+        raise core.Ambiguous()
+    if r is None:
+        return None
+    if r[0] == "amb":
+        raise core.Ambiguous()
+    if len(mo) > 1 and mo[1] is not None:
+        # density*layerWidth is inexact in doubles: the model fed with the density that
+        # reproduces the code's double must then agree
+        try:
+            r2 = _cmp_engine(case["py"], io["layout"], io, dec_engine(mo[1]))
+        except Amb:
+            raise core.Ambiguous()
+        if r2 is None or r2[0] == "amb":
+            raise core.Ambiguous()
+    return r[1]
+
+
 def layout_usable(lay):
     return isinstance(lay, dict) and "nodes" in lay and all(n["chain_int"] and n["chain"] for n in lay["nodes"])
 
@@ -543,7 +757,7 @@ def attach_models(modname, cases, workdir_tag="prepass"):
     for c, o in zip(todo, outs):
         lay = o.get("layout") if isinstance(o, dict) else None
         if layout_usable(lay):
-            c["model"] = model_calls(c["py"], lay)
+            c["model"] = engine_calls(c["py"], lay) if c["py"].get("engine") else model_calls(c["py"], lay)
             c["pre"] = {"nodes": [[n["key"], n["chain"], n["ideal"]] for n in lay["nodes"]]}
         else:
             c["model"] = []       # the implementation failed in the pre-pass: compare() reports it
@@ -937,6 +1151,8 @@ def compare(case, io, mo):
         return "the layout differs between two runs on the same input"
     if json.dumps(io["layout"], sort_keys=True) != json.dumps(io["layout_tex"], sort_keys=True):
         return "TimelineSVG and TimelineTex computed different layouts from identical inputs"
+    if case["py"].get("engine"):
+        return compare_engine(case, io, mo)
     if len(mo) != 3 or any(x is None for x in mo):
         return "model produced no output"
     try:
